@@ -1,4 +1,7 @@
 import RactorModel.Lemmas.TwoNode
+import RactorModel.Lemmas.Agreement
+import RactorModel.Lemmas.HandshakeRefine
+import RactorModel.Lemmas.HandshakeProgress
 import RactorModel.Lemmas.NodeState
 
 /-!
@@ -52,56 +55,8 @@ theorem agreement (o : Ordering) (ho : o ≠ .eq) (cs : List Conn) (hne : cs ≠
         ∀ c ∈ survivors o cs, acc.idA ≤ c.idA) ∧
       (acc.aInit = true →
         electB o cs = [acc.idB] ∧ electA o cs = (survivors o cs).map (·.idA) ∧
-        ∀ c ∈ survivors o cs, acc.idB ≤ c.idB) := by
-  obtain ⟨d, hd⟩ := survivors_same_dir ho cs
-  refine ⟨⟨d, hd⟩, survivors_same_nonce o cs, ?_⟩
-  have hTne := survivors_ne_nil o hne
-  have hsub := survivors_sublist o cs
-  cases d with
-  | false =>
-    -- node A accepted the surviving connections
-    have hne' : (survivors o cs).map viewA ≠ [] := by simpa using hTne
-    have hall : ∀ c ∈ (survivors o cs).map viewA, c.isServer = true := by
-      intro c hc
-      obtain ⟨x, hx, rfl⟩ := List.mem_map.mp hc
-      simp [viewA, hd x hx]
-    have hnd : (((survivors o cs).map viewA).map (·.id)).Nodup := by
-      have : ((survivors o cs).map viewA).map (·.id) = (survivors o cs).map (·.idA) := by
-        simp [viewA, Function.comp_def]
-      rw [this]
-      exact (hsub.map _).nodup hA
-    obtain ⟨cA, hcA, htb, hmin⟩ := tieBreak_allServer hne' hall hnd
-    obtain ⟨acc, hacc, rfl⟩ := List.mem_map.mp hcA
-    refine ⟨acc, hacc, fun _ => ⟨?_, ?_, ?_⟩, fun h => ?_⟩
-    · rw [electA_eq, htb]; rfl
-    · rw [electB_eq, tieBreak_noServer]
-      · simp [viewB, Function.comp_def]
-      · exact ⟨viewB acc, List.mem_map.mpr ⟨acc, hacc, rfl⟩, by simp [viewB, hd acc hacc]⟩
-    · intro c hc
-      exact hmin _ (List.mem_map.mpr ⟨c, hc, rfl⟩)
-    · rw [hd acc hacc] at h; cases h
-  | true =>
-    -- node B accepted the surviving connections
-    have hne' : (survivors o cs).map viewB ≠ [] := by simpa using hTne
-    have hall : ∀ c ∈ (survivors o cs).map viewB, c.isServer = true := by
-      intro c hc
-      obtain ⟨x, hx, rfl⟩ := List.mem_map.mp hc
-      simp [viewB, hd x hx]
-    have hnd : (((survivors o cs).map viewB).map (·.id)).Nodup := by
-      have : ((survivors o cs).map viewB).map (·.id) = (survivors o cs).map (·.idB) := by
-        simp [viewB, Function.comp_def]
-      rw [this]
-      exact (hsub.map _).nodup hB
-    obtain ⟨cB, hcB, htb, hmin⟩ := tieBreak_allServer hne' hall hnd
-    obtain ⟨acc, hacc, rfl⟩ := List.mem_map.mp hcB
-    refine ⟨acc, hacc, fun h => ?_, fun _ => ⟨?_, ?_, ?_⟩⟩
-    · rw [hd acc hacc] at h; cases h
-    · rw [electB_eq, htb]; rfl
-    · rw [electA_eq, tieBreak_noServer]
-      · simp [viewA, Function.comp_def]
-      · exact ⟨viewA acc, List.mem_map.mpr ⟨acc, hacc, rfl⟩, by simp [viewA, hd acc hacc]⟩
-    · intro c hc
-      exact hmin _ (List.mem_map.mpr ⟨c, hc, rfl⟩)
+        ∀ c ∈ survivors o cs, acc.idB ≤ c.idB) :=
+  Election.agreement_core o ho cs hne hA hB
 
 
 /-- (oracle soundness) The run-time oracle `worldOk`, which `bin/check` evaluates on the
@@ -193,35 +148,8 @@ of the connections that still contains it, it is still a survivor. Hence once th
 node has closed its losers, re-election on the initiating node — over whatever subset is
 still open — keeps that same physical connection. -/
 theorem survivor_stable (o : Ordering) (cs R : List Conn) (hR : R.Sublist cs) (c : Conn)
-    (hc : c ∈ survivors o cs) (hcR : c ∈ R) : c ∈ survivors o R := by
-  rw [survivors_spec] at hc ⊢
-  obtain ⟨⟨_, hdir⟩, hn⟩ := hc
-  refine ⟨⟨hcR, fun ⟨x, hx, hxa⟩ ⟨y, hy, hya⟩ => hdir ⟨x, hR.subset hx, hxa⟩ ⟨y, hR.subset hy, hya⟩⟩, ?_⟩
-  intro c' hc' hne
-  by_cases hmem : c' ∈ dirC o cs
-  · exact hn c' hmem hne
-  · -- `c'` passed the direction stage of `R` but not of `cs`: then `cs` has both
-    -- directions and `c'` has the wrong one, while `c` has the right one; but then `R`
-    -- (which contains both `c` and `c'`) has both directions too — contradiction.
-    exfalso
-    rw [mem_dirC] at hc' hmem
-    obtain ⟨hc'R, hdirR⟩ := hc'
-    have hc'cs := hR.subset hc'R
-    simp only [hc'cs, true_and, Classical.not_imp] at hmem
-    obtain ⟨hx, hy, hbad⟩ := hmem
-    have hcdir := hdir hx hy
-    cases o with
-    | eq => simp at hbad
-    | lt =>
-      simp only [forall_const, reduceCtorEq, false_imp_iff, and_true] at hbad hcdir
-      have hc'f : c'.aInit = false := by simpa using hbad
-      have := hdirR ⟨c, hcR, hcdir⟩ ⟨c', hc'R, hc'f⟩
-      simp [hc'f] at this
-    | gt =>
-      simp only [forall_const, reduceCtorEq, false_imp_iff, true_and] at hbad hcdir
-      have hc't : c'.aInit = true := by simpa using hbad
-      have := hdirR ⟨c', hc'R, hc't⟩ ⟨c, hcR, hcdir⟩
-      simp [hc't] at this
+    (hc : c ∈ survivors o cs) (hcR : c ∈ R) : c ∈ survivors o R :=
+  Election.survivor_stable_core o cs R hR c hc hcR
 
 
 
@@ -240,36 +168,8 @@ theorem winner_survives_every_partial_election (o : Ordering) (ho : o ≠ .eq) (
     (acc.aInit = false → (∀ c ∈ survivors o cs, acc.idA ≤ c.idA) →
         electA o R = [acc.idA] ∧ acc.idB ∈ electB o R) ∧
     (acc.aInit = true → (∀ c ∈ survivors o cs, acc.idB ≤ c.idB) →
-        electB o R = [acc.idB] ∧ acc.idA ∈ electA o R) := by
-  have hne : R ≠ [] := by intro h; rw [h] at haccR; simp at haccR
-  have hA' : (R.map (·.idA)).Nodup := (hR.map _).nodup hA
-  have hB' : (R.map (·.idB)).Nodup := (hR.map _).nodup hB
-  have haccS : acc ∈ survivors o R := survivor_stable o cs R hR acc hacc haccR
-  have hsub := survivors_sub_of_winner ho hR hacc haccR
-  obtain ⟨_, _, a', ha', h1, h2⟩ := agreement o ho R hne hA' hB'
-  obtain ⟨d, hd⟩ := survivors_same_dir ho R
-  constructor
-  · intro hai hmin
-    have ha'i : a'.aInit = false := by rw [hd a' ha', ← hd acc haccS, hai]
-    obtain ⟨eA, eB, hmin'⟩ := h1 ha'i
-    -- the acceptor's choice within R is `acc`: both are minimal and ids are distinct
-    have hle1 : a'.idA ≤ acc.idA := hmin' acc haccS
-    have hle2 : acc.idA ≤ a'.idA := hmin a' (hsub a' ha')
-    have heq : a' = acc := by
-      have hidx : a'.idA = acc.idA := Nat.le_antisymm hle1 hle2
-      exact nodup_map_inj' (·.idA) hA' ((survivors_sublist o R).subset ha') haccR hidx
-    subst heq
-    exact ⟨eA, by rw [eB]; exact List.mem_map.mpr ⟨a', haccS, rfl⟩⟩
-  · intro hai hmin
-    have ha'i : a'.aInit = true := by rw [hd a' ha', ← hd acc haccS, hai]
-    obtain ⟨eB, eA, hmin'⟩ := h2 ha'i
-    have hle1 : a'.idB ≤ acc.idB := hmin' acc haccS
-    have hle2 : acc.idB ≤ a'.idB := hmin a' (hsub a' ha')
-    have heq : a' = acc := by
-      have hidx : a'.idB = acc.idB := Nat.le_antisymm hle1 hle2
-      exact nodup_map_inj' (·.idB) hB' ((survivors_sublist o R).subset ha') haccR hidx
-    subst heq
-    exact ⟨eB, by rw [eA]; exact List.mem_map.mpr ⟨a', haccS, rfl⟩⟩
+        electB o R = [acc.idB] ∧ acc.idA ∈ electA o R) :=
+  Election.winner_survives_every_partial_election_core o ho cs R hA hB hR acc hacc haccR
 
 /-- (convergence) A set of connections `R` that is at rest on both nodes — each node's election
 over `R` keeps all of `R` (nothing more will be closed) — and still contains the acceptor's
@@ -292,6 +192,92 @@ theorem quiescent_set_is_the_single_winner (o : Ordering) (ho : o ≠ .eq) (cs R
     have hl : R.length = 1 := by simpa using congrArg List.length eB
     match R, hl, haccR with
     | [x], _, hm => simp at hm; rw [hm]
+
+
+/-! ### every interleaving of the two nodes' handshakes (`Model/Handshake.lean`) -/
+
+/-- **Both nodes converge on one and the same link, whatever the schedule.** Two nodes with
+distinct names, any non-empty set of connections between them (any initiators, any nonces incl.
+legacy `0` and repeats). There is ONE connection `acc` — fixed by the connections alone, not by
+the schedule — such that for EVERY sequence of steps of the two `NodeServer`s (sessions
+authenticating on either node in any order, each followed by that node's election over the
+sessions authenticated and open THERE at that moment; `check_candidate` probes of sessions that
+have not authenticated yet; either node noticing, at any later time, that the other closed a
+connection):
+
+* `acc` is never closed, by either node, at any point of the run;
+* whenever the run is at rest (every connection still open somewhere is open and authenticated
+  on both nodes), BOTH nodes hold exactly `[acc]`. -/
+theorem handshake_converges_on_one_link (o : Ordering) (ho : o ≠ .eq) (cs : List Conn) (hne : cs ≠ [])
+    (hA : (cs.map (·.idA)).Nodup) (hB : (cs.map (·.idB)).Nodup) :
+    ∃ acc ∈ cs, ∀ ops : List HOp,
+      (∀ l ∈ hsRun o cs ops, l.c = acc → l.openA = true ∧ l.openB = true) ∧
+      (hsQuiescent (hsRun o cs ops) = true →
+        openOnA (hsRun o cs ops) = [acc] ∧ openOnB (hsRun o cs ops) = [acc]) := by
+  obtain ⟨acc, hw⟩ := exists_winner o ho cs hne hA hB
+  have X : Ctx o cs acc := ⟨ho, hA, hB, hw⟩
+  exact ⟨acc, X.mem, fun ops => ⟨(hsRun_inv X ops).accOpen, (hsRun_inv X ops).quiescent X⟩⟩
+
+/-- The winner is the connection the full election picks: a survivor of the direction and nonce
+rules with the smallest session id on the accepting node (`IsWinner`), and ANY connection with
+that description is kept by every run — so the link the two nodes end up with can be read off
+the connections without knowing the schedule. -/
+theorem handshake_winner_is_the_elected_one (o : Ordering) (ho : o ≠ .eq) (cs : List Conn)
+    (hA : (cs.map (·.idA)).Nodup) (hB : (cs.map (·.idB)).Nodup) (acc : Conn) (hw : IsWinner o cs acc)
+    (ops : List HOp) (hq : hsQuiescent (hsRun o cs ops) = true) :
+    openOnA (hsRun o cs ops) = [acc] ∧ openOnB (hsRun o cs ops) = [acc] :=
+  (hsRun_inv ⟨ho, hA, hB, hw⟩ ops).quiescent ⟨ho, hA, hB, hw⟩ hq
+
+
+/-- **The handshakes come to rest.** (progress) A state that is not at rest always has a step
+that does something; a step that does something strictly decreases the measure `hsMu`
+(3 per open end + 1 per open, not yet authenticated end); a step that is not enabled changes
+nothing. Hence in EVERY run — any schedule, any repetitions, any number of useless steps — at
+most `8 · #connections` steps do anything, and a run in which no enabled step is postponed for
+ever reaches a state at rest, where by `handshake_converges_on_one_link` both nodes hold the
+same single link. -/
+theorem handshake_comes_to_rest (o : Ordering) (cs : List Conn) (ops : List HOp) :
+    hsEffective o (hsInit cs) ops ≤ 8 * cs.length ∧
+    (∀ w : List Link, hsQuiescent w = false → ∃ op, hsEnabled o w op = true) ∧
+    (∀ (w : List Link) (op : HOp), hsEnabled o w op = true → hsMu (hsStep o w op) < hsMu w) ∧
+    (∀ (w : List Link) (op : HOp), hsEnabled o w op = false → hsStep o w op = w) := by
+  refine ⟨?_, enabled_of_not_quiescent o, hsStep_decreases o, hsStep_of_not_enabled o⟩
+  have := effective_bound o ops (hsInit cs)
+  rw [hsMu_init] at this
+  omega
+
+/-- (tie of the `authA` step to the `NodeServerState` model that the correspondence run compares
+with `node.rs`) `commit_authenticated` on node A's state — one registered session per connection
+open on A — elects among exactly the step's `activeA (markA w a)` and names as losers exactly the
+sessions the step closes. -/
+theorem commit_is_the_auth_step (nameA nameB : String) (w : List Link) (a : Nat)
+    (h : pendingA w a = true) :
+    ∃ st', (nsOfA nameA nameB w).commit a =
+      some (st', (electA (nameOrd nameB nameA) (activeA (markA w a))).contains a,
+        ((markA w a).filter (fun l => l.authA && l.openA &&
+          !(electA (nameOrd nameB nameA) (activeA (markA w a))).contains l.c.idA)).map (·.c.idA)) :=
+  commit_is_stepAuthA nameA nameB w a h
+
+/-- (tie of the `preA` step) `check_candidate` tells a session that has not authenticated yet
+that another connection continues exactly when the step closes it. -/
+theorem check_candidate_is_the_pre_step (nameA nameB : String) (w : List Link) (a : Nat)
+    (hnd : ((w.map (·.c)).map (·.idA)).Nodup) (h : pendingA w a = true) :
+    ((nsOfA nameA nameB w).checkCandidate a = .otherContinues) ↔
+      (electA (nameOrd nameB nameA) (candA w a)).contains a = false :=
+  checkCandidate_is_stepPreA nameA nameB w a hnd h
+
+/-- Non-vacuity: three connections (both nodes dialled, one legacy nonce); node B authenticates
+everything first, node A last, closes are noticed late — the run comes to rest with one link,
+and a different schedule comes to rest with the same link. -/
+example :
+    let cs : List Conn := [⟨true, 5, 10, 20⟩, ⟨false, 3, 11, 21⟩, ⟨false, 0, 12, 22⟩]
+    let run1 := hsRun .lt cs [.authB 20, .authB 21, .authB 22, .authA 12, .authA 11, .authA 10,
+      .seeA 10, .seeA 11, .seeA 12, .seeB 20, .seeB 21, .seeB 22]
+    let run2 := hsRun .lt cs [.authA 11, .preA 12, .authB 21, .preB 22, .authA 10, .authB 20, .authA 12, .authB 22,
+      .seeB 20, .seeB 21, .seeB 22, .seeA 10, .seeA 11, .seeA 12]
+    hsQuiescent run1 = true ∧ hsQuiescent run2 = true ∧
+    openOnA run1 = openOnB run1 ∧ openOnA run1 = openOnA run2 ∧ (openOnA run1).length = 1 := by
+  decide
 
 /-! ### `NodeServerState`: unauthenticated sessions cannot displace or veto -/
 
@@ -403,6 +389,11 @@ end C18
 #print axioms C18.survivor_stable
 #print axioms C18.winner_survives_every_partial_election
 #print axioms C18.quiescent_set_is_the_single_winner
+#print axioms C18.handshake_converges_on_one_link
+#print axioms C18.handshake_winner_is_the_elected_one
+#print axioms C18.handshake_comes_to_rest
+#print axioms C18.commit_is_the_auth_step
+#print axioms C18.check_candidate_is_the_pre_step
 #print axioms C18.unauthenticated_cannot_influence_commit
 #print axioms C18.unauthenticated_cannot_influence_check
 #print axioms C18.unauthenticated_cannot_influence_ready
